@@ -323,6 +323,12 @@ def instance_case(case, ctx):
         )
         check_views(ctx, inst, built, f"from_matrices(machines spelled as {spelled})")
     via_json = json.loads(json.dumps(dct))
+    # the caller edits the dictionary it was given to derive a variant; a
+    # later conversion of the (unchanged) instance is not affected
+    dct["name"] = "variant-of-" + str(dct["name"])
+    dct["metadata"] = {"edited": True}
+    dct["duration_matrix"] = [[x + 1 for x in row] for row in dct["duration_matrix"]]
+    same_content(ctx, "to_dict-not-fresh", instance, JobShopInstance.from_matrices(**instance.to_dict()), "second to_dict() after the first result was edited")
     same_content(ctx, "roundtrip:json", instance, JobShopInstance.from_matrices(**via_json), "from_matrices(**json(to_dict()))")
     if not flexible:
         with tempfile.TemporaryDirectory(prefix="c14_") as tmp:
